@@ -68,12 +68,18 @@ package operationapplier
 //@ iface OperationParser.ParseCreateOperation
 //@   results op, err
 //@   ensures err == nil ==> op != nil && fresh(op) && op.SuffixData == reqSuffixData(request) && op.SuffixData != nil && op.Delta == reqDelta(request) && op.Type == operation.TypeCreate
+//@ spec updParsed(parser any, req bytes) bool
+//@ spec updSDParsed(parser any, c string) bool
+//@ spec recParsed(parser any, req bytes) bool
+//@ spec recSDParsed(parser any, c string) bool
 //@ iface OperationParser.ParseUpdateOperation
 //@   results op, err
+//@   ensures (err == nil) == updParsed(this, request)
 //@   ensures err == nil ==> op != nil && fresh(op) && op.SignedData == reqSD(request) && op.Delta == reqDelta(request) && op.RevealValue == reqReveal(request) && op.UniqueSuffix == reqSuffix(request) && op.Type == operation.TypeUpdate
 //@   ensures err == nil ==> validMH(boxed(updKey(reqSD(request))), reqReveal(request))
 //@ iface OperationParser.ParseRecoverOperation
 //@   results op, err
+//@   ensures (err == nil) == recParsed(this, request)
 //@   ensures err == nil ==> op != nil && fresh(op) && op.SignedData == reqSD(request) && op.Delta == reqDelta(request) && op.RevealValue == reqReveal(request) && op.UniqueSuffix == reqSuffix(request) && op.Type == operation.TypeRecover
 //@   ensures err == nil ==> validMH(boxed(recKey(reqSD(request))), reqReveal(request))
 //@ iface OperationParser.ParseDeactivateOperation
@@ -82,9 +88,11 @@ package operationapplier
 //@   ensures err == nil ==> validMH(boxed(deaKey(reqSD(request))), reqReveal(request))
 //@ iface OperationParser.ParseSignedDataForUpdate
 //@   results m, err
+//@   ensures (err == nil) == updSDParsed(this, compactJWS)
 //@   ensures err == nil ==> m != nil && fresh(m) && m.UpdateKey == updKey(compactJWS) && m.UpdateKey != nil && m.DeltaHash == updDeltaHash(compactJWS) && m.AnchorFrom == updFrom(compactJWS) && m.AnchorUntil == updUntil(compactJWS)
 //@ iface OperationParser.ParseSignedDataForRecover
 //@   results m, err
+//@   ensures (err == nil) == recSDParsed(this, compactJWS)
 //@   ensures err == nil ==> m != nil && fresh(m) && m.RecoveryKey == recKey(compactJWS) && m.RecoveryKey != nil && m.DeltaHash == recDeltaHash(compactJWS) && m.RecoveryCommitment == recCommit(compactJWS) && m.AnchorOrigin == recOrigin(compactJWS) && m.AnchorFrom == recFrom(compactJWS) && m.AnchorUntil == recUntil(compactJWS)
 //@ iface OperationParser.ParseSignedDataForDeactivate
 //@   results m, err
@@ -126,6 +134,9 @@ package operationapplier
 //@   ensures err == nil && !(inWindow(updFrom(reqSD(anchoredOp.OperationRequest)), updUntil(reqSD(anchoredOp.OperationRequest)), anchoredOp.TransactionTime, s.MaxOperationTimeDelta) && patchOK(rm.Doc, reqDelta(anchoredOp.OperationRequest).Patches)) ==> r0.Doc == rm.Doc
 //@   ensures err == nil && inWindow(updFrom(reqSD(anchoredOp.OperationRequest)), updUntil(reqSD(anchoredOp.OperationRequest)), anchoredOp.TransactionTime, s.MaxOperationTimeDelta) && patchOK(rm.Doc, reqDelta(anchoredOp.OperationRequest).Patches) ==> r0.Doc == patched(rm.Doc, reqDelta(anchoredOp.OperationRequest).Patches)
 //@   ensures err != nil ==> r0 == nil
+//   exactly these conditions make an update fail; in particular an authorised update outside its window is NOT an error (it
+//   consumes its commitment and leaves the document unchanged)
+//@   ensures (err == nil) == (rm.Doc != nil && updParsed(s.OperationParser, anchoredOp.OperationRequest) && updSDParsed(s.OperationParser, reqSD(anchoredOp.OperationRequest)) && validMH(boxed(reqDelta(anchoredOp.OperationRequest)), updDeltaHash(reqSD(anchoredOp.OperationRequest))) && sigValid(reqSD(anchoredOp.OperationRequest), updKey(reqSD(anchoredOp.OperationRequest))) && reqDelta(anchoredOp.OperationRequest) != nil && deltaValid(s.OperationParser, reqDelta(anchoredOp.OperationRequest)))
 //
 //@ func (*Applier).applyDeactivateOperation
 //@   requires applierOK(s) && anchoredOp != nil && rm != nil && anchoredOp.TransactionTime < big()
@@ -142,6 +153,9 @@ package operationapplier
 //@   ensures err == nil && !(validMH(boxed(reqDelta(anchoredOp.OperationRequest)), recDeltaHash(reqSD(anchoredOp.OperationRequest))) && reqDelta(anchoredOp.OperationRequest) != nil && deltaValid(s.OperationParser, reqDelta(anchoredOp.OperationRequest))) ==> r0.UpdateCommitment == "" && r0.Doc != nil && fresh(r0.Doc)
 //@   ensures err == nil && validMH(boxed(reqDelta(anchoredOp.OperationRequest)), recDeltaHash(reqSD(anchoredOp.OperationRequest))) && reqDelta(anchoredOp.OperationRequest) != nil && deltaValid(s.OperationParser, reqDelta(anchoredOp.OperationRequest)) ==> r0.UpdateCommitment == reqDelta(anchoredOp.OperationRequest).UpdateCommitment
 //@   ensures err == nil ==> r0.Doc != nil && r0.Doc != rm.Doc
+//   a recover anchored outside its window still advances the commitments but leaves the document empty
+//@   ensures err == nil && !inWindow(recFrom(reqSD(anchoredOp.OperationRequest)), recUntil(reqSD(anchoredOp.OperationRequest)), anchoredOp.TransactionTime, s.MaxOperationTimeDelta) ==> (forall k string :: !(k in r0.Doc))
+//@   ensures (err == nil) == (rm.Doc != nil && recParsed(s.OperationParser, anchoredOp.OperationRequest) && recSDParsed(s.OperationParser, reqSD(anchoredOp.OperationRequest)) && sigValid(reqSD(anchoredOp.OperationRequest), recKey(reqSD(anchoredOp.OperationRequest))))
 //   after a recover the document consists solely of the recover's own content: it is empty, or the recover's patches
 //   applied to a new empty document - never to the previous document
 //@   ensures err == nil ==> (forall k string :: !(k in r0.Doc)) || (exists d document.Document :: d != nil && fresh(d) && (forall k string :: !(k in d)) && r0.Doc == patched(d, reqDelta(anchoredOp.OperationRequest).Patches))
